@@ -908,7 +908,7 @@ def gen_specs(ctx):
     exh_graphs = small + (four if thorough else r.sample(four, ctx.budget(40, 0)))
     for g in exh_graphs:
         for t in MUT_TYPES:
-            for prob in ([1, 0.5] if thorough else [1]):
+            for prob in ([1, 0.5] if thorough and r.random() < 0.4 else [1]):
                 cfg = base_cfg(r, 'mutation', [t], rules='default', prob=prob)
                 if r.random() < 0.3:
                     cfg['attempts'] = 100          # the default of GPAlgorithmParameters
@@ -923,14 +923,14 @@ def gen_specs(ctx):
             if r.random() < 0.3:
                 cfg['attempts'] = 100
             specs.append(plain_spec([g1, g2], [0, 1], cfg, sd(), 'exhaustive'))
-    for _ in range(ctx.budget(0, 7000)):           # pairs involving 4-node DAGs (sampled)
+    for _ in range(ctx.budget(0, 6000)):           # pairs involving 4-node DAGs (sampled)
         g1, g2 = r.choice(four), r.choice(four + small)
         if r.random() < 0.5:
             g1, g2 = g2, g1
         cfg = base_cfg(r, 'crossover', [r.choice(CROSS_TYPES)], rules='default', prob=1)
         specs.append(plain_spec([g1, g2], [0, 1], cfg, sd(), 'exhaustive4'))
     # --- random stream
-    for _ in range(ctx.budget(900, 12000)):
+    for _ in range(ctx.budget(900, 10000)):
         op = r.choice(['mutation', 'crossover'])
         if op == 'mutation':
             k = r.choice([1, 1, 2, 3])
@@ -955,7 +955,7 @@ def gen_specs(ctx):
             r.shuffle(pop)
         specs.append(plain_spec(graphs, pop, cfg, sd(), 'random', inds=inds, bare=r.random() < 0.5))
     # --- relatives stream: parents derived from one ancestor (shared node uids)
-    for _ in range(ctx.budget(800, 9000)):
+    for _ in range(ctx.budget(800, 8000)):
         op = r.choice(['crossover', 'crossover', 'crossover', 'mutation'])
         rules = r.choice(['default', 'default', 'accept_all', 'root_acyclic', 'custom'])
         if op == 'crossover':
@@ -978,7 +978,7 @@ def gen_specs(ctx):
                 'bare': False}
         specs.append(spec)
     # --- user-supplied functions stream: mutation callables (native and domain-level), crossover callables
-    for _ in range(ctx.budget(300, 3000)):
+    for _ in range(ctx.budget(300, 2500)):
         op = r.choice(['mutation', 'mutation', 'crossover'])
         if op == 'mutation':
             domain = r.random() < 0.3
